@@ -1,12 +1,103 @@
 /-
-  CmdStab.lean — driver commands (stub; owned by the group that builds the corresponding model).
+  CmdStab.lean — driver commands for the stabilizer-tableau model (C03, C05, C11; used by C02, C08).
 -/
+import GraphiqModel.Model.StabTableau
 import Driver.Proto
+import Driver.CmdTab
 namespace Graphiq.CmdStab
 open Graphiq Graphiq.Proto
 
+def stabOf (a : Args) (pfx : String := "") : STab :=
+  let n := getNat a (pfx ++ "n")
+  let xs := rowsOf n (get a (pfx ++ "x"))
+  let zs := rowsOf n (get a (pfx ++ "z"))
+  let r := bitsArr (get a (pfx ++ "r"))
+  STab.ofRows n (Array.ofFn (n := n) fun i =>
+    PRow.ofArrays (xs.getD i.val #[]) (zs.getD i.val #[]) (r.getD i.val false) false)
+
+def showStab (t : STab) : String :=
+  s!"n={t.n} x={bits2ToString t.n t.n fun i j => (t.row i).x j} z={bits2ToString t.n t.n fun i j => (t.row i).z j} r={bitsToString t.n fun i => (t.row i).r}"
+
+def showCirc (c : List Gate) : String :=
+  if c.isEmpty then "-" else String.intercalate "," (c.map Gate.toString)
+
+def parseGate (s : String) : Option Gate :=
+  let parts := splitChar ':' s
+  let arg (k : Nat) : Nat := ((parts.getD (k+1) "").toNat?).getD 0
+  match parts.headD "" with
+  | "H" => some (.H (arg 0)) | "P" => some (.P (arg 0)) | "P_dag" => some (.Pdag (arg 0))
+  | "X" => some (.X (arg 0)) | "Y" => some (.Y (arg 0)) | "Z" => some (.Z (arg 0)) | "I" => some (.I (arg 0))
+  | "CNOT" => some (.CNOT (arg 0) (arg 1)) | "CZ" => some (.CZ (arg 0) (arg 1))
+  | _ => none
+
+def circOf (s : String) : Option (List Gate) := (listOf s).mapM parseGate
+
+def rref (a : Args) : String :=
+  match (stabOf a).rref with
+  | .error e => s!"err {e}"
+  | .ok (t, brs) => s!"ok {showStab t} br={if brs.isEmpty then "-" else String.intercalate "," brs}"
+
+def canon (a : Args) : String :=
+  match (stabOf a).canonicalForm with
+  | .error e => s!"err {e}"
+  | .ok t => s!"ok {showStab t}"
+
+def inv (a : Args) : String :=
+  match (stabOf a).inverseCircuit with
+  | .error e => s!"err {e}"
+  | .ok (t, c) => s!"ok {showStab t} circ={showCirc c} zero={b01 t.isZero} len={c.length}"
+
+def height (a : Args) : String :=
+  match (stabOf a).heightFuncList with
+  | .error e => s!"err {e}"
+  | .ok l => s!"ok h={showInts "," l} max={l.foldl max 0}"
+
+def ip (a : Args) : String :=
+  match STab.innerProduct (CmdTab.tabOf a "a") (CmdTab.tabOf a "b") with
+  | .error e => s!"err {e}"
+  | .ok none => "ok zero"
+  | .ok (some k) => s!"ok k={k}"
+
+def cliff (a : Args) : String :=
+  match (stabOf a).cliffordFromStabilizer with
+  | .error e => s!"err {e}"
+  | .ok t => s!"ok {CmdTab.showTab t.norm} valid={b01 t.isSymplectic}"
+
+/-- run a circuit list on a stabilizer tableau (forward), out-of-range gates are an assertion error -/
+def run (a : Args) : String :=
+  let t := stabOf a
+  match circOf (get a "circ") with
+  | none => "err value"
+  | some c =>
+    if c.all (Gate.inBounds t.n) then s!"ok {showStab (t.runCircuit c)}" else "err assertion"
+
+/-- run a circuit list on a Clifford tableau, optionally reversed -/
+def runTab (a : Args) : String :=
+  let t := CmdTab.tabOf a
+  match circOf (get a "circ") with
+  | none => "err value"
+  | some c =>
+    if c.all (Gate.inBounds t.n) then
+      let t' := t.runCircuit c (get a "rev" = "1")
+      s!"ok {CmdTab.showTab t'} valid={b01 t'.isSymplectic}"
+    else "err assertion"
+
+def insert (a : Args) : String :=
+  let t := stabOf a
+  let p := getNat a "p"
+  if p ≤ t.n then s!"ok {showStab (t.insertQubit p).norm}" else "err assertion"
+
 def dispatch (cmd : String) (a : Args) : Option String :=
   match cmd with
+  | "stab.rref" => some (rref a)
+  | "stab.canon" => some (canon a)
+  | "stab.inv" => some (inv a)
+  | "stab.height" => some (height a)
+  | "stab.ip" => some (ip a)
+  | "stab.cliff" => some (cliff a)
+  | "stab.run" => some (run a)
+  | "stab.runtab" => some (runTab a)
+  | "stab.insert" => some (insert a)
   | _ => none
 
 end Graphiq.CmdStab
